@@ -530,6 +530,26 @@ def run_misscoped(chunk, st):
 
     n = 2
 
+    if place == 'change-meta' and inner == 'utf-8' and outer == 'latin-1':
+        # no main encoding; a change that declares one; then a sibling that
+        # declares none: nothing is inherited across siblings
+        for first in ('utf-16-be', 'cp037', 'utf-32-le'):
+            blob = (b'#diffx: version=1.0\n#.change: encoding=%s\n'
+                    b'#..file:\n#...meta: encoding=ascii, format=json, '
+                    b'length=9\n{"a": 1}\n#.change:\n'
+                    b'#..meta: format=json, length=9\n{"b": 2}\n#..file:\n'
+                    b'#...meta: format=json, length=9\n{"c": 3}\n'
+                    % first.encode('ascii'))
+            recs, err = sut.read_records(blob)
+            got = [r.get('metadata') for r in recs if 'metadata' in r]
+            n += 1
+
+            if err is not None or got != [{'a': 1}, {'b': 2}, {'c': 3}]:
+                st.violation('sibling-inherited-an-encoding',
+                             'no main encoding, first change %s, second '
+                             'change declares none: metadata %r, error %r'
+                             % (first, got, err), dict(case, first=first))
+
     if place in ('change-preamble', 'change-preamble-own'):
         # the writer's side: text the encoding in effect cannot represent
         # is refused -- not written in some other encoding
